@@ -1,6 +1,7 @@
 """C19 — copying a file through the library is lossless and writing is deterministic (DESIGN §4 C19)."""
 from mirlib import *
 import determinism_rules
+import header_rules
 import xml_rules
 import width_rules
 import codec_rules
@@ -21,7 +22,7 @@ def run(ctx):
     ctx.rule("R1", "nothing reachable from the writer API uses clocks, randomness, hash iteration, environment, ids or addresses")
     ctx.rule("R2", "prototype type attributes: integer kinds always written with explicit minimum/maximum (scale/offset), names and parse types agree with the reader")
     ctx.rule("R3", "prototype order preserved by reader and writer")
-    ctx.rule("R4", "shared clauses of a lossless copy: bit width formula up to 64 bits on both sides, stored form, escaping gate")
+    ctx.rule("R4", "shared clauses of a lossless copy: bit width formula up to 64 bits on both sides, stored form, escaping gate, file header fields = true offsets / byte lengths")
     for cfg in ["lib", "lib_crc32c"]:
         prog, info = load_program(cfg, "e57")
         ctx.configs[cfg] = info
@@ -33,5 +34,6 @@ def run(ctx):
             width_rules.width_formula(ctx, prog, "R4")
             codec_rules.stored_form(ctx, prog, "R4")
             xml_rules.escaping_gate(ctx, prog, "R4")
+            header_rules.publication_order(ctx, prog, "R4")
     ctx.cfg = None
     determinism_rules.controls(ctx)
